@@ -1,25 +1,40 @@
-// scratch probe for C12
-use opwv::glue::*;
-use opwv::props::c12::*;
-use rs_opw_kinematics::cartesian::*;
-use rs_opw_kinematics::kinematic_traits::Kinematics;
-use rs_opw_kinematics::rrt::RRTPlanner;
+// scratch probe: RX160 J4-J6 touch-mode disagreement
+use opwv::mesh::*;
+use opwv::model::*;
+use opwv::scene::*;
 fn main() {
-    let f = std::env::args().nth(1).unwrap();
-    let v: serde_json::Value = serde_json::from_str(&std::fs::read_to_string(f).unwrap()).unwrap();
-    let c: Case = serde_json::from_value(v["case"].clone()).unwrap();
-    let (s, k) = setup_free(&c).unwrap();
-    println!("attempt {} start {:?}", k, s.start);
-    let robot = &s.built.robot;
-    let land = to_na(&s.poses[0]);
-    let sols = robot.inverse_continuing(&land, &s.start);
-    for x in &sols { println!("landing solution {:?} compliant {}", x, robot.constraints().as_ref().unwrap().compliant(x)); }
-    let n = s.poses.len();
-    let park = to_na(&s.poses[n - 1]);
-    let strokes: Vec<_> = s.poses[1..n - 1].iter().map(to_na).collect();
-    let planner = Cartesian { robot, check_step_m: c.check_step_m, check_step_rad: c.check_step_deg.to_radians(), max_transition_cost: c.max_cost_deg.to_radians(),
-        transition_coefficients: c.coeffs.unwrap_or(DEFAULT_TRANSITION_COSTS), linear_recursion_depth: c.depth as usize,
-        rrt: RRTPlanner { step_size_joint_space: c.rrt_step_deg.to_radians(), max_try: c.rrt_max_try as usize, debug: false }, include_linear_interpolation: c.include, debug: false };
-    let r = planner.plan(&s.start, &land, strokes, &park);
-    match r { Ok(p) => for (i, w) in p.iter().enumerate() { eprintln!("{} {:?}", i, w); }, Err(e) => eprintln!("ERR {}", e) }
+    let rx = rx160_meshes().unwrap();
+    let r = rx160_spec();
+    let j5: f64 = std::env::args().nth(1).map(|s| s.parse().unwrap()).unwrap_or(-2.560412439804398);
+    let j = [0.0, 0.0, 0.0, 0.0, j5, 0.0];
+    let links = r.links(&j);
+    let (g4, g6) = (&rx.links[3], &rx.links[5]);
+    let (t4, t6) = (g4.world_tris(&links[3]), g6.world_tris(&links[5]));
+    println!("oracle dist upto 0.01: {}", mesh_dist_upto(&t4, &t6, 0.01));
+    // find intersecting pairs
+    let mut n = 0;
+    let mut shown = 0;
+    for a in &t4 { for b in &t6 { if tri_tri_dist(a, b) == 0.0 { n += 1; if shown < 3 { shown += 1; println!("pair {:?}\n     {:?}", a, b);
+        let ta = parry3d::shape::Triangle::new(nalgebra::Point3::new(a[0][0] as f32,a[0][1] as f32,a[0][2] as f32), nalgebra::Point3::new(a[1][0] as f32,a[1][1] as f32,a[1][2] as f32), nalgebra::Point3::new(a[2][0] as f32,a[2][1] as f32,a[2][2] as f32));
+        let tb = parry3d::shape::Triangle::new(nalgebra::Point3::new(b[0][0] as f32,b[0][1] as f32,b[0][2] as f32), nalgebra::Point3::new(b[1][0] as f32,b[1][1] as f32,b[1][2] as f32), nalgebra::Point3::new(b[2][0] as f32,b[2][1] as f32,b[2][2] as f32));
+        let id = nalgebra::Isometry3::identity();
+        println!("   parry tri-tri intersect {:?} dist {:?}", parry3d::query::intersection_test(&id, &ta, &id, &tb), parry3d::query::distance(&id, &ta, &id, &tb));
+    } } } }
+    println!("intersecting triangle pairs: {}", n);
+    for h in [1e-4, 2e-4, 5e-4, 1e-3, 2e-3, 3e-3, 5e-3, 1e-2] {
+        let mut sep = false;
+        for axis in 0..3 { for sg in [-1.0, 1.0] {
+            let mut sh = [0.0; 3]; sh[axis] = sg * h;
+            let moved: Vec<Tri> = t6.iter().map(|t| [add(&t[0], &sh), add(&t[1], &sh), add(&t[2], &sh)]).collect();
+            if mesh_dist_upto(&t4, &moved, 1e-3) > 0.0 { sep = true; }
+        } }
+        println!("nudge {:e}: separable {}", h, sep);
+    }
+    let p4 = iso_to_f32(&links[3]); let p6 = iso_to_f32(&links[5]);
+    let (m4, m6) = (g4.trimesh(), g6.trimesh());
+    println!("parry intersection_test: {:?}", parry3d::query::intersection_test(&p4, &m4, &p6, &m6));
+    println!("parry intersection_test swapped: {:?}", parry3d::query::intersection_test(&p6, &m6, &p4, &m4));
+    println!("parry distance: {:?}", parry3d::query::distance(&p4, &m4, &p6, &m6));
 }
+#[allow(dead_code)]
+fn depth() {}
